@@ -5,7 +5,7 @@ CONSTANTS
   MaxInterior = 4
   KVals <- KValsT
   Eps <- Eps64
-  MaxGenExtra = 8
+  MaxGenExtra = 24
   SpanInterior = 8
 INVARIANT T_SpanUnique
 INVARIANT T_SpanAlgos
